@@ -434,9 +434,10 @@ class Fitter:
         content: Fragment | None = None,
     ) -> None:
         top = self.frontier[self.depth]
-        top_match = top.match.match_type(type_)
-        assert top_match is not None
-        top.match = top_match
+        # As in the JavaScript original the match may run out here (None): the
+        # node is still placed and the frontier level is closed before it is
+        # matched against again.
+        top.match = top.match.match_type(type_)  # type: ignore[assignment]
         self.placed = add_to_fragment(
             self.placed,
             self.depth,
